@@ -10,7 +10,7 @@ from ..common import hx, key_family, pick, run_cases, sk
 
 ID = "C19"
 LEVEL = "fault_enumeration"
-TECHNIQUE = "fault injection in the user callback: every subset of items marked to raise before / after updating the sketches, crossed with worker schedules, enumerated in-process against the real worker loop (result oracle on the surviving contributions); worker death injected in-process (BaseException) and in real spawned runs (os._exit) with a 'must raise, must not hang' oracle and a CPU-progress hang detector"
+TECHNIQUE = "fault injection in the user callback: every subset of items marked to raise before / after updating the sketches, crossed with worker schedules, enumerated in-process against the real worker loop (result oracle on the surviving contributions); worker death injected in-process (BaseException) and in real spawned runs (os._exit) with a 'must raise, must not hang' oracle and a CPU-progress hang detector; spawned drivers with the caller's logging silenced (globally, per logger, by level)"
 RULE = ("case = (items, fault marks per item in {none, raise_before, raise_after, exit}, n_workers 1..3, schedule, sketch combination); both "
         "tiers: all 64 mark vectors of 3 items x all 24 schedules on 2 workers plus sampled cases of up to 5 items (this core is never cut short "
         "by the time budget); thorough, as far as the budget goes: all 256 mark vectors of 4 items x all 360 schedules on 3 workers (sharded; the "
@@ -108,6 +108,7 @@ def run_spawned_case(case, ctx, mon):
         mon.count("spawned_death_runs_completed")
         mon.seen("spawned_death_exception", (r or {}).get("exc", "")[:60])
         mon.seen("spawned_death_n_workers", case["n_workers"])
+        mon.seen("spawned_death_driver_logging", (case.get("ambient") or {}).get("logging", "default"))
         mon.seen("spawned_death_how", case["items"][case["lethal"]].get("how", "os._exit(3)"))
         mon.extra(**{"spawned_death_wall_s_max": 0})
         mon._extra["spawned_death_wall_s_max"] = max(mon._extra.get("spawned_death_wall_s_max", 0), round(out["wall"], 1))
@@ -141,15 +142,18 @@ def run_spawned_raise_case(case, ctx, mon):
         P.cleanup_spawned(out)
 
 
-def spawned_death_case(rng, nw, kth, how=None):
+def spawned_death_case(rng, nw, kth, how=None, ambient=None):
     keys = key_family(rng, 6, 0, 8)
     n_items = 2 * nw + 3
     lethal = min(n_items - 1, kth)
     items = P.gen_items(rng, n_items, keys, marks={lethal: "exit"}, sleep=True)
     if how:
         items[lethal]["how"] = how
-    return {"type": "spawned", "items": items, "n_workers": nw, "combo": list(COMBO_ALL), "args": P.gen_args(rng, COMBO_ALL, "linear"),
+    case = {"type": "spawned", "items": items, "n_workers": nw, "combo": list(COMBO_ALL), "args": P.gen_args(rng, COMBO_ALL, "linear"),
             "lethal": lethal, "timeout": 600, "item_kind": pick(rng, ["dict", "bytes", "int"])}
+    if ambient:
+        case["ambient"] = ambient
+    return case
 
 
 def gen_cases(ctx):
@@ -158,9 +162,16 @@ def gen_cases(ctx):
     sh, ns = ctx.shard, ctx.nshards
     plan = [(2, 1, None), (2, 3, "sigkill"), (2, 2, "sigterm")] if q else [(3, 1, "sigterm"), (1, 0, "sigterm"), (1, 0, None), (2, 1, None), (3, 2, None), (2, 4, "sigkill"), (3, 0, "sigkill"), (1, 2, None), (2, 0, "sigkill"), (1, 1, "sigkill"),
                                      (2, 1, "KeyboardInterrupt"), (2, 2, "SystemExit(2)")]
+    # the driver process of two runs in three has the caller's logging silenced (globally / per logger / by level) and sits in
+    # another working directory: whether a dead worker is noticed must not depend on log traffic (round 8, seed C19-N)
+    amb = [None, {"logging": "disable(CRITICAL)", "cwd": True}, {"logging": "level>CRITICAL"}, {"logging": "logger.disabled"}]
     for j, (nw, kth, how) in enumerate(plan):
         if q or j % ns == sh:
-            yield spawned_death_case(rng, nw, kth, how)
+            yield spawned_death_case(rng, nw, kth, how, amb[j % len(amb)])
+    if not q and sh == ns - 5:
+        for a in amb[1:]:
+            yield spawned_death_case(rng, 1, 1, None, a)
+            yield spawned_death_case(rng, 2, 4, None, a)
     if not q and sh == ns - 2:
         # a user exception that pickle cannot rebuild from its args, followed by a few hundred more items (enough log
         # traffic to fill a pipe): parallel_add must still come back with everything else
